@@ -365,6 +365,7 @@ package tex
 //@   ensures #length blen(b) == old(blen(b)) + len(s)
 //@   ensures #kept forall i int :: { at(b, i) } 0 <= i && i < old(blen(b)) ==> at(b, i) == old(at(b, i))
 //@   ensures #appended forall j int :: { s[j] } 0 <= j && j < len(s) ==> at(b, old(blen(b)) + j) == s[j]
+//@   ensures #storage (arrid(b.buf) == old(arrid(b.buf)) && off(b.buf) == old(off(b.buf)) && cap(b.buf) == old(cap(b.buf))) || isfresh(b.buf)
 //@   modifies b.buf, b.off, b.lastRead, region($alloc), b.buf[0:cap(b.buf)]
 //
 //@ func Buffer.WriteByte
@@ -439,6 +440,7 @@ package tex
 //@   property C11
 //@   requires size >= 0
 //@   ensures result != nil && isfresh(result) && blen(result) == 0 && result.off == 0 && cap(result.buf) >= size && result.lastRead == 0
+//@   ensures #storage isfresh(result.buf)
 //@   modifies region($alloc)
 //
 //@ func NewBuffer
